@@ -132,6 +132,8 @@ def build_model(case):
                 writes.append(plain_write)
                 items.append(('rec', t, ids[0], line_no))
                 return
+            if any(ord(ch) > 127 for ch in text):
+                kind = 'unparsable'         # parse_record decodes the whole line as ASCII before splitting it
             writes.append(('raw', text))
             items.append((kind, t if kind == 'lostjs' else None, None, line_no))
 
@@ -341,7 +343,7 @@ def probe_class(files):
                     self.vp_releases.append({'seq': len(self.vp_opens) + len(self.vp_releases), 'load': self.vp_load,
                                              'suffix': self._f, 'n': self._n})
 
-            def open(self, target=None, after=True, lookahead=None, strict=False, encoding=None):
+            def open(self, target=None, after=True, lookahead=None, strict=False, encoding=None, **kw):
                 rec = {'seq': len(self.vp_opens) + len(self.vp_releases), 'load': self.vp_load, 'after': bool(after),
                        'strict': bool(strict), 'suffix': None,
                        'target_ms': None if target is None else int(round(files.timestamp(target).value * 1000))}
@@ -350,7 +352,7 @@ def probe_class(files):
                 if self.vp_opens_this_load > self.vp_open_bound:
                     raise StepBound('%d open() calls in one load()' % self.vp_opens_this_load)
                 for item in files.loader.open(self, target=target, after=after, lookahead=lookahead,
-                                              strict=strict, encoding=encoding):
+                                              strict=strict, encoding=encoding, **kw):
                     if rec['suffix'] is None:
                         rec['suffix'] = item[0][0]
                     yield item
@@ -552,21 +554,24 @@ def analyse(case, m, tr):
 
     # ---- completion and the reason for FAILED
     final = tr['final_state']
+    pos = dict((i, p) for p, i in enumerate(m.expected))
+    tail_from = 1 + max([pos[d['id']] for d in D if d['id'] in pos] or [-1])
     dead_from = None            # position in expected[] from which records are lost to a dead/stuck loader
     if final == 'FAILED':
         exc = tr['exc'][-1] if tr['exc'] else None
         names = [fn for _, fn in exc['frames']] if exc else []
-        if exc and 'parse_record' in names and 'open' in names and m.first_unparsable is not None:
+        if exc and 'parse_record' in names and 'open' in names:
+            # reader.open handles a parse error on a file's first record itself; what escapes is a later line
             sig = 'FAILED:parse-error-after-first-record-escapes-reader.open'
             clause = 'corrupt-skipped'
-            dead_from = m.first_unparsable
+            dead_from = tail_from if m.first_unparsable is None else min(tail_from, m.first_unparsable)
         elif exc:
             where = [fr for fr in exc['frames']][-1]
             sig = 'FAILED:%s@%s:%s' % (exc['type'], where[0], where[1])
             clause = 'completes'
-            dead_from = 0
+            dead_from = tail_from
         else:
-            sig, clause, dead_from = 'FAILED:no-exception-seen(IframeError/DataError)', 'completes', 0
+            sig, clause, dead_from = 'FAILED:no-exception-seen(IframeError/DataError)', 'completes', tail_from
         delivered_ids = set(d['id'] for d in D)
         lost = [i for i in m.expected if i not in delivered_ids]
         out.append((clause, sig,
@@ -575,12 +580,12 @@ def analyse(case, m, tr):
                      'records_lost': len(lost), 'first_lost_id': lost[0] if lost else None},
                     'damaged line skipped, every other record delivered, state COMPLETE'))
     elif final == 'LIVELOCK':
-        dead_from = 0           # reported below, by the reason its load() kept re-opening files
+        dead_from = tail_from   # reported below, by the reason its load() kept re-opening files
     elif final != 'COMPLETE':
         out.append(('completes', 'never-completes:' + final,
                     {'state': final, 'future': loads[-1]['future'] if loads else None, 'loads': len(loads)},
                     'COMPLETE once the clock is past the last record plus lookahead'))
-        dead_from = 0
+        dead_from = tail_from
     elif tr['after_complete']:
         out.append(('completes', 'events-after-complete', {'events': tr['after_complete']}, 'no events once COMPLETE'))
 
@@ -668,7 +673,6 @@ def analyse(case, m, tr):
     # missing
     missing = [i for i in m.expected if i not in counts]
     missing_set = set(missing)
-    pos = dict((i, p) for p, i in enumerate(m.expected))
     attributed = set(i for i in missing if dead_from is not None and pos[i] >= dead_from)
     opened_files = set(o.get('file') for o in opens)
     for f in sorted(set(m.recs[i]['file'] for i in missing if i not in attributed)):
